@@ -176,7 +176,7 @@ def run_shard(shard, ctx):
             if unit['fam'] == 'fresh_vs_fixed':
                 ctx.count('short_lived_key_tuple_cases')
             cached_before = (kx, ky) in alg.gp
-            st, r = ops.check_generic(ctx, alg, iso, cfg, 'gp', (kx, ky), cid)
+            st, r = ops.check_generic(ctx, alg, iso, cfg, 'gp', (kx, ky), cid, total=True)
             if st in ('timeout', 'raised'):
                 continue
             ctx.count('generic_executions')
